@@ -33,9 +33,9 @@ func runC19(c *eng.Ctx, thorough bool) {
 	// ---- C19.2 counted before the verdict is acted on
 	if f := c.Fn("vault.(*Core).handleRequest"); f != nil {
 		c.Clause("R2", "C19.2")
-		dispatch := eng.AsInstrs(eng.Calls(f, `vault\.\(\*Core\)\.doRoutingIfApproved$`))
-		usePat := fwdPat(f, useTokenPat)
-		use := eng.GCallOK(f, usePat)
+		dispatch := c02MaySinks(f, `vault\.\(\*Core\)\.doRoutingIfApproved$`)
+		useSites := c19Sites(f, useTokenPat)
+		use := c19OK(useTokenPat, useSites)
 		noEntry := eng.G(f, `^te == nil$`, true)
 		g := eng.Or(eng.Guard{Desc: use.Desc, Edges: use.Edges}, noEntry)
 		c.Cut(f, "backend dispatch (doRoutingIfApproved)", dispatch, g, nil)
@@ -47,7 +47,7 @@ func runC19(c *eng.Ctx, thorough bool) {
 		c.Cut(f, "branch on the CheckToken verdict (ctErr != nil)", verdictIfs, g, nil)
 		// nil entry from UseToken => return without dispatch
 		c.Clause("R4", "C19.2")
-		for _, u := range eng.Calls(f, usePat) {
+		for _, u := range c19Calls(useSites) {
 			fail := eng.CallFailEdges(u)
 			if h := eng.Reach(eng.Query{Fn: f, StartEdges: fail, Target: eng.IsTarget(dispatch)}); h != nil {
 				c.Violation(f, "on{UseToken failure} no dispatch", h.Instr.Pos(), "dispatch reachable after UseToken failed", h.Witness)
@@ -137,8 +137,13 @@ func runC19(c *eng.Ctx, thorough bool) {
 	// ---- C19.2b the verdict and the last-use test look at UseToken's result, not at the copy made before it
 	if f := c.Fn("vault.(*Core).handleRequest"); f != nil {
 		c.Clause("R5", "C19.2")
-		useRe := regexp.MustCompile(fwdPat(f, useTokenPat))
-		uses := eng.Calls(f, useRe.String())
+		uses := c19Calls(c19Sites(f, useTokenPat))
+		isUse := map[ssa.Value]bool{}
+		for _, u := range uses {
+			if v, ok := u.(ssa.Value); ok {
+				isUse[v] = true
+			}
+		}
 		n := 0
 		for _, pat := range []string{`^te == nil$`, `^te\.NumUses == -1$`} {
 			for _, e := range append(eng.CondEdges(f, pat, true), eng.CondEdges(f, pat, false)...) {
@@ -193,7 +198,7 @@ func runC19(c *eng.Ctx, thorough bool) {
 						continue
 					}
 					cl, isCall := ex.Tuple.(*ssa.Call)
-					if !isCall || !useRe.MatchString(eng.CalleeName(&cl.Call)) {
+					if !isCall || !isUse[cl] {
 						ok = false
 					}
 				}
@@ -230,7 +235,7 @@ func runC19(c *eng.Ctx, thorough bool) {
 	if f := c.Fn("vault.(*Core).handleCancelableRequest"); f != nil {
 		c.Clause("R2", "C19.6")
 		var sinks []ssa.Instruction
-		sinks = append(sinks, eng.AsInstrs(eng.Calls(f, `vault\.\(\*Core\)\.(handleRequest|handleLoginRequest)$`))...)
+		sinks = append(sinks, c02MaySinks(f, `vault\.\(\*Core\)\.(handleRequest|handleLoginRequest)$`)...)
 		if c.Floor(f, "request handlers called", len(sinks), 2) {
 			g := eng.Or(eng.G(f, `^0 < req\.ClientTokenRemainingUses$`, false), eng.GD(f, `^\(\*sync/atomic\.Bool\)\.Load\(c\.standby\)$`, false))
 			c.Cut(f, "request handled locally", sinks, g, nil)
@@ -260,7 +265,7 @@ func runC19(c *eng.Ctx, thorough bool) {
 	// ---- C19.4 no children for a use-limited parent
 	if f := c.Fn("vault.(*TokenStore).handleCreateCommon"); f != nil {
 		c.Clause("R2", "C19.4")
-		create := eng.AsInstrs(eng.Calls(f, `vault\.\(\*TokenStore\)\.create$`))
+		create := c02MaySinks(f, `vault\.\(\*TokenStore\)\.create$`)
 		c.Cut(f, "ts.create", create, eng.G(f, `^0 < .*\.NumUses$`, false), nil)
 	}
 
@@ -285,7 +290,7 @@ func runC19(c *eng.Ctx, thorough bool) {
 				if b != ut {
 					allowed[eng.FuncName(b)] = "locked body of UseToken: only entered with a token lock held (C19.1)"
 				}
-				if len(eng.Calls(b, fwdPat(b, tokenStorePat))) == 0 {
+				if len(c19Sites(b, tokenStorePat)) == 0 {
 					if tl, _, _ := useTokenTail(c, b); tl != nil {
 						allowed[eng.FuncName(tl)] = "decrement-and-store tail of UseToken: only entered with a token lock held, on the re-read entry (C19.1)"
 					}
@@ -315,82 +320,58 @@ const useTokenPat = `vault\.\(\*TokenStore\)\.UseToken$`
 const tokenStorePat = `vault\.\(\*TokenStore\)\.store$`
 const tokenLookupPat = `vault\.\(\*TokenStore\)\.lookupInternal$`
 
-// fwdClosures: the closures of f that merely forward to a call matching
-// target (`func(x) R { return target(…, x) }`): exactly one call in the body,
-// matching target, and every return hands that call's results back.
-func fwdClosures(f *ssa.Function, target string) map[*ssa.Function]ssa.CallInstruction {
-	re := regexp.MustCompile(target)
-	out := map[*ssa.Function]ssa.CallInstruction{}
-	for _, cl := range eng.Closures(f) {
-		var calls []ssa.CallInstruction
-		for _, b := range cl.Blocks {
-			for _, in := range b.Instrs {
-				if ci, ok := in.(ssa.CallInstruction); ok {
-					calls = append(calls, ci)
-				}
+// c19Site: a call of `target` located in f — the direct call, a call through a
+// bound method value, or the call of a closure of the same top-level function
+// (forwarding closure, immediately invoked closure, function variable) that
+// performs the target call on every path and hands its verdict back. Built on
+// the resolved sites of props/c04follow.go (nfMust); a same-package helper is
+// NOT followed here (the rules that allow a helper say so: useTokenBody/-Tail).
+type c19Site struct {
+	At   ssa.CallInstruction
+	site nfSite
+}
+
+// Arg: argument i of the target call behind the site, with the call chain
+// needed to continue its provenance through closure parameters (nfOrigins).
+func (s c19Site) Arg(i int) (ssa.Value, *nfFrame) {
+	if len(s.site.Effs) != 1 || i >= len(s.site.Effs[0].Call.Args) {
+		return nil, nil
+	}
+	return s.site.Effs[0].Call.Args[i], s.site.Effs[0].Fr
+}
+
+func c19Sites(f *ssa.Function, target string) []c19Site {
+	var out []c19Site
+	for _, st := range nfPlain(nfMust(f, nil, nfNamed(target), 2)) {
+		ci := st.At.(ssa.CallInstruction)
+		direct := len(st.Effs) == 1 && st.Effs[0].Call.In == ci
+		if !direct {
+			b := nfBody(ci, f)
+			if b == nil || b.Parent() == nil || !st.Fwd {
+				continue
 			}
 		}
-		if len(calls) != 1 || !re.MatchString(eng.CalleeName(calls[0].Common())) {
-			continue
-		}
-		inner, isCall := calls[0].(*ssa.Call)
-		if !isCall {
-			continue
-		}
-		ok := true
-		for _, r := range eng.Returns(cl) {
-			for _, v := range r.Results {
-				if ex, isEx := v.(*ssa.Extract); isEx {
-					v = ex.Tuple
-				}
-				if v != ssa.Value(inner) {
-					ok = false
-				}
-			}
-		}
-		if ok {
-			out[cl] = calls[0]
-		}
+		out = append(out, c19Site{ci, st})
 	}
 	return out
 }
 
-// fwdPat: a callee pattern matching target itself and calls of f's forwarding
-// closures to it (the call site in f stands for the forwarded call).
-func fwdPat(f *ssa.Function, target string) string {
-	p := target
-	for cl := range fwdClosures(f, target) {
-		p += `|^closure:` + regexp.QuoteMeta(eng.FuncName(cl)) + `$`
+func c19Calls(ss []c19Site) []ssa.CallInstruction {
+	var out []ssa.CallInstruction
+	for _, s := range ss {
+		out = append(out, s.At)
 	}
-	return p
+	return out
 }
 
-// fwdArg: argument i of the (possibly forwarded) call to target at call site s.
-func fwdArg(f *ssa.Function, target string, s ssa.CallInstruction, i int) ssa.Value {
-	cc := s.Common()
-	if regexp.MustCompile(target).MatchString(eng.CalleeName(cc)) {
-		if i < len(cc.Args) {
-			return cc.Args[i]
-		}
-		return nil
+// c19OK: the guard "one of the sites ran and succeeded" (eng.GCallOK over resolved sites, same key).
+func c19OK(target string, ss []c19Site) eng.Guard {
+	g := eng.Guard{Desc: "success edge of " + target}
+	for _, s := range ss {
+		g.Edges = append(g.Edges, eng.CallOKEdges(s.At)...)
+		g.Pass = append(g.Pass, s.At)
 	}
-	mc, ok := cc.Value.(*ssa.MakeClosure)
-	if !ok {
-		return nil
-	}
-	cl, _ := mc.Fn.(*ssa.Function)
-	inner := fwdClosures(f, target)[cl]
-	if inner == nil || i >= len(inner.Common().Args) {
-		return nil
-	}
-	if p, ok := inner.Common().Args[i].(*ssa.Parameter); ok {
-		for j, q := range cl.Params {
-			if q == p && j < len(cc.Args) {
-				return cc.Args[j]
-			}
-		}
-	}
-	return nil
+	return g
 }
 
 // tokenLockCall classifies Lock/Unlock/… calls on a lock that was obtained from
@@ -560,7 +541,7 @@ func useTokenAtomic(c *eng.Ctx, clause string) {
 	// re-read entry and whose results it returns
 	const reReadEntry = `^call:vault\.\(\*TokenStore\)\.lookupInternal#0$`
 	tail, entryPat, onePat, entryIsParam := body, reReadEntry, `lookupInternal\(\)#0\.NumUses == 1$`, false
-	if len(eng.Calls(body, fwdPat(body, tokenStorePat))) == 0 {
+	if len(c19Sites(body, tokenStorePat)) == 0 {
 		tl, call, idx := useTokenTail(c, body)
 		if tl == nil {
 			c.Clause("R9", clause)
@@ -605,8 +586,8 @@ func useTokenAtomic(c *eng.Ctx, clause string) {
 		entryPat = `^param:` + regexp.QuoteMeta(eng.VarName(p)) + `$`
 		onePat = `^` + regexp.QuoteMeta(eng.VarName(p)) + `\.NumUses == 1$`
 	}
-	storePat := fwdPat(tail, tokenStorePat)
-	stores := eng.Calls(tail, storePat)
+	storeSites := c19Sites(tail, tokenStorePat)
+	stores := c19Calls(storeSites)
 	c.Clause("R9", clause)
 	c.Floor(tail, "ts.store", len(stores), 1)
 	for _, in := range stores {
@@ -641,13 +622,13 @@ func useTokenAtomic(c *eng.Ctx, clause string) {
 		}
 	}
 	c.Floor(tail, "values assigned to NumUses (decrement and marker)", len(assigns), 2)
-	for _, s := range stores {
-		arg := fwdArg(tail, tokenStorePat, s, 2)
+	for _, s := range storeSites {
+		arg, fr := s.Arg(2)
 		if arg == nil {
-			c.Undecided(tail, "prov{entry passed to ts.store}", s.Pos(), "the entry operand of the forwarded store call could not be related to the call site")
+			c.Undecided(tail, "prov{entry passed to ts.store}", s.At.Pos(), "the entry operand of the store call behind this site could not be located")
 			continue
 		}
-		c.Prov(tail, "entry passed to ts.store", s, arg, entryPat)
+		nfProv(c, tail, "entry passed to ts.store", s.At, arg, fr, entryPat)
 	}
 	// last use stores the pending marker
 	c.Clause("R2", clause)
@@ -686,7 +667,7 @@ func useTokenAtomic(c *eng.Ctx, clause string) {
 			okRets = append(okRets, r)
 		}
 	}
-	c.Cut(tail, "return (re-read entry, nil)", okRets, eng.GCallOK(tail, storePat), nil)
+	c.Cut(tail, "return (re-read entry, nil)", okRets, c19OK(tokenStorePat, storeSites), nil)
 }
 
 // useTokenTail: the unique function of body's package that body calls, that
@@ -704,7 +685,7 @@ func useTokenTail(c *eng.Ctx, body *ssa.Function) (*ssa.Function, ssa.CallInstru
 		if _, isCall := cl.(*ssa.Call); !isCall || h == nil || h.Pkg != body.Pkg || len(h.Blocks) == 0 || h.Parent() != nil || h == body {
 			continue
 		}
-		if len(eng.Calls(h, fwdPat(h, tokenStorePat))) == 0 {
+		if len(c19Sites(h, tokenStorePat)) == 0 {
 			continue
 		}
 		writes := false
